@@ -758,6 +758,9 @@ func runRunner(c *core.Ctx, which string) {
 	}
 	races := int64(0)
 	for _, race := range []bool{false, true} {
+		if race && c.Violations() > 0 {
+			break // the plain build already refuted the property; the race build would only repeat it slowly
+		}
 		bin := ""
 		env := []string{}
 		if race {
